@@ -25,6 +25,10 @@ ASSUMPTIONS = [
     "of its own request and the outcomes of its own calls; this is not proved about the code, it is tied by the "
     "conc_pv / conc_battery streams (2-3 concurrent requests for disjoint component sets on ONE manager instance, "
     "scripted reply latencies, every Result judged against its own request and compared with the model).",
+    "A call that has not replied when the timeout fires counts as timed out (failed) whatever happens afterwards: the "
+    "scripted outcomes include replies that would arrive after the timeout and calls whose cancellation takes time to "
+    "unwind (CancelledError caught, sleep, re-raised), alone and combined, in all streams. A client call that swallows "
+    "its cancellation and returns normally is outside the outcome space and not scripted.",
     "asyncio: a task that has not finished when asyncio.wait times out is cancelled and its result() raises "
     "CancelledError; exercised on async_solipsism virtual time, not proved.",
 ]
